@@ -2,13 +2,15 @@
    Model: Model/NpSum.v (NumPy's pairwise sum, nancumsum, nanmean, nanmax/nanmin, min/max) and Model/Defuzz.v
    (Op.midpoints and the five defuzzify methods, line by line); the same definitions are executed over binary64
    floats and compared bit for bit with the implementation by tools/props/C09.py on every run.
-   Readings used here: NumR (reals) for the summation, the midpoints and the centroid; NumRN (reals + NaN,
-   `option R`, Proofs/DefuzzProofs.v) for all five defuzzifiers, because the code masks sample points with NaN.
-   `Some z` is the number z, `None` is NaN, `Ok`/`Err` is return/raise.  `liftf mu` reads a real membership
-   function mu : R -> R in RN; `Rmidpoints lo hi r` is the list of the x_i = lo + (i + 1/2)(hi - lo)/r.
+   Readings used here: NumR (reals) for the summation, the midpoints and the centroid; NumER (reals + inf + NaN,
+   Num/NumER.v) for all five defuzzifiers, because the code masks sample points with NaN.
+   `Fin z` is the number z, `NaN` is NaN, `Ok`/`Err` is return/raise.  `liftf mu` reads a real membership
+   function mu : R -> R in ER; `Rmidpoints lo hi r` is the list of the x_i = lo + (i + 1/2)(hi - lo)/r;
+   `toER` embeds a specification-level `option R` (None = NaN).  Memberships are >= 0 (the property's domain):
+   the hypothesis `forall x, 0 <= mu x` is what keeps every x/0 of the code a 0/0.
    Only imports and final statements; all proofs live in Proofs/DefuzzProofs.v. *)
 From Coq Require Import ZArith Reals Bool List Lra Lia.
-From VF Require Import Num NumR Core NpSum Defuzz DefuzzProofs.
+From VF Require Import Num NumR NumER Core NpSum Defuzz DefuzzProofs.
 Import ListNotations.
 Local Open Scope R_scope.
 
@@ -27,10 +29,10 @@ Proof.
 Qed.
 Print Assumptions C09_midpoints_spec.
 
-Theorem C09_midpoints_RN : forall (lo hi : R) (r : nat), (0 < r)%nat ->
-  midpoints (N:=NumRN) (Some lo) (Some hi) r = Ok (map Some (Rmidpoints lo hi r)).
-Proof. exact midpoints_RN. Qed.
-Print Assumptions C09_midpoints_RN.
+Theorem C09_midpoints_ER : forall (lo hi : R) (r : nat), (0 < r)%nat ->
+  midpoints (N:=NumER) (Fin lo) (Fin hi) r = Ok (map Fin (Rmidpoints lo hi r)).
+Proof. exact midpoints_ER. Qed.
+Print Assumptions C09_midpoints_ER.
 
 Theorem C09_midpoints_in_range : forall (lo hi : R) (r i : nat), lo <= hi -> (i < r)%nat ->
   lo <= Rmidpoint lo hi r i <= hi.
@@ -42,8 +44,8 @@ Theorem C09_midpoints_increasing : forall (lo hi : R) (r i j : nat), lo < hi -> 
 Proof. exact Rmidpoint_increasing. Qed.
 Print Assumptions C09_midpoints_increasing.
 
-Theorem C09_resolution_zero_raises : forall k (mu : RN -> RN) lo hi, defuzzify k 0 mu lo hi = Err EInternal.
-Proof. exact (@defuzzify_zero_resolution RN NumRN). Qed.
+Theorem C09_resolution_zero_raises : forall k (mu : ER -> ER) lo hi, defuzzify k 0 mu lo hi = Err EInternal.
+Proof. exact (@defuzzify_zero_resolution ER NumER). Qed.
 Print Assumptions C09_resolution_zero_raises.
 
 (* ---- Centroid = sum x mu / sum mu *)
@@ -52,11 +54,11 @@ Theorem C09_centroid_spec_R : forall xs ys : list R,
 Proof. exact centroid_R. Qed.
 Print Assumptions C09_centroid_spec_R.
 
-Theorem C09_centroid_spec : forall (r : nat) (mu : R -> R) (lo hi : R), (0 < r)%nat ->
+Theorem C09_centroid_spec : forall (r : nat) (mu : R -> R) (lo hi : R), (0 < r)%nat -> (forall x, 0 <= mu x) ->
   let xs := Rmidpoints lo hi r in
-  defuzzify (N:=NumRN) Centroid r (liftf mu) (Some lo) (Some hi) =
-  Ok (if Req_EM_T (Rsum (map mu xs)) 0 then None else Some (dot xs (map mu xs) / Rsum (map mu xs))).
-Proof. intros r mu lo hi Hr. exact (defuzzify_value Centroid r mu lo hi Hr). Qed.
+  defuzzify (N:=NumER) Centroid r (liftf mu) (Fin lo) (Fin hi) =
+  Ok (toER (if Req_EM_T (Rsum (map mu xs)) 0 then None else Some (dot xs (map mu xs) / Rsum (map mu xs)))).
+Proof. intros r mu lo hi Hr Hmu. exact (defuzzify_value Centroid r mu lo hi Hr Hmu). Qed.
 Print Assumptions C09_centroid_spec.
 
 (* ---- the maxima: smallest / mean / largest sample point where mu attains its positive maximum *)
@@ -71,34 +73,35 @@ Theorem C09_max_is_max : forall (m0 : R) (mt : list R),
 Proof. intros m0 mt. split; [apply Rmaxl_in | apply Rmaxl_ge]. Qed.
 Print Assumptions C09_max_is_max.
 
-Theorem C09_som_spec : forall (r : nat) (mu : R -> R) (lo hi : R), (0 < r)%nat ->
+Theorem C09_som_spec : forall (r : nat) (mu : R -> R) (lo hi : R), (0 < r)%nat -> (forall x, 0 <= mu x) ->
   let xs := Rmidpoints lo hi r in
-  defuzzify (N:=NumRN) SmallestOfMaximum r (liftf mu) (Some lo) (Some hi) =
-  Ok (match argmax_points xs (map mu xs) with [] => None | a :: t => Some (fold_left Rmin t a) end).
-Proof. intros r mu lo hi Hr. exact (defuzzify_value SmallestOfMaximum r mu lo hi Hr). Qed.
+  defuzzify (N:=NumER) SmallestOfMaximum r (liftf mu) (Fin lo) (Fin hi) =
+  Ok (toER (match argmax_points xs (map mu xs) with [] => None | a :: t => Some (fold_left Rmin t a) end)).
+Proof. intros r mu lo hi Hr Hmu. exact (defuzzify_value SmallestOfMaximum r mu lo hi Hr Hmu). Qed.
 Print Assumptions C09_som_spec.
 
-Theorem C09_mom_spec : forall (r : nat) (mu : R -> R) (lo hi : R), (0 < r)%nat ->
+Theorem C09_mom_spec : forall (r : nat) (mu : R -> R) (lo hi : R), (0 < r)%nat -> (forall x, 0 <= mu x) ->
   let xs := Rmidpoints lo hi r in
-  defuzzify (N:=NumRN) MeanOfMaximum r (liftf mu) (Some lo) (Some hi) =
-  Ok (match argmax_points xs (map mu xs) with [] => None | p => Some (Rsum p / INR (length p)) end).
-Proof. intros r mu lo hi Hr. exact (defuzzify_value MeanOfMaximum r mu lo hi Hr). Qed.
+  defuzzify (N:=NumER) MeanOfMaximum r (liftf mu) (Fin lo) (Fin hi) =
+  Ok (toER (match argmax_points xs (map mu xs) with [] => None | a :: t => Some (Rsum (a :: t) / INR (length (a :: t))) end)).
+Proof. intros r mu lo hi Hr Hmu. exact (defuzzify_value MeanOfMaximum r mu lo hi Hr Hmu). Qed.
 Print Assumptions C09_mom_spec.
 
-Theorem C09_lom_spec : forall (r : nat) (mu : R -> R) (lo hi : R), (0 < r)%nat ->
+Theorem C09_lom_spec : forall (r : nat) (mu : R -> R) (lo hi : R), (0 < r)%nat -> (forall x, 0 <= mu x) ->
   let xs := Rmidpoints lo hi r in
-  defuzzify (N:=NumRN) LargestOfMaximum r (liftf mu) (Some lo) (Some hi) =
-  Ok (match argmax_points xs (map mu xs) with [] => None | a :: t => Some (fold_left Rmax t a) end).
-Proof. intros r mu lo hi Hr. exact (defuzzify_value LargestOfMaximum r mu lo hi Hr). Qed.
+  defuzzify (N:=NumER) LargestOfMaximum r (liftf mu) (Fin lo) (Fin hi) =
+  Ok (toER (match argmax_points xs (map mu xs) with [] => None | a :: t => Some (fold_left Rmax t a) end)).
+Proof. intros r mu lo hi Hr Hmu. exact (defuzzify_value LargestOfMaximum r mu lo hi Hr Hmu). Qed.
 Print Assumptions C09_lom_spec.
 
 (* ---- Bisector: mean of the sample points whose normalised cumulative membership is closest to 1/2 *)
-Theorem C09_bisector_spec : forall (r : nat) (mu : R -> R) (lo hi : R), (0 < r)%nat ->
+Theorem C09_bisector_spec : forall (r : nat) (mu : R -> R) (lo hi : R), (0 < r)%nat -> (forall x, 0 <= mu x) ->
   let xs := Rmidpoints lo hi r in
-  defuzzify (N:=NumRN) Bisector r (liftf mu) (Some lo) (Some hi) =
-  Ok (if Req_EM_T (Rsum (map mu xs)) 0 then None
-      else match bisector_points xs (map mu xs) with [] => None | p => Some (Rsum p / INR (length p)) end).
-Proof. intros r mu lo hi Hr. exact (defuzzify_value Bisector r mu lo hi Hr). Qed.
+  defuzzify (N:=NumER) Bisector r (liftf mu) (Fin lo) (Fin hi) =
+  Ok (toER (if Req_EM_T (Rsum (map mu xs)) 0 then None
+            else match bisector_points xs (map mu xs) with
+                 | [] => None | a :: t => Some (Rsum (a :: t) / INR (length (a :: t))) end)).
+Proof. intros r mu lo hi Hr Hmu. exact (defuzzify_value Bisector r mu lo hi Hr Hmu). Qed.
 Print Assumptions C09_bisector_spec.
 
 Theorem C09_bisector_points_spec : forall (xs mus : list R) (d0 : R) (dt : list R) (x : R),
@@ -121,15 +124,16 @@ Print Assumptions C09_bisector_points_nonempty.
 (* ---- every result lies in [min, max] *)
 Theorem C09_in_range : forall k (r : nat) (mu : R -> R) (lo hi z : R),
   (0 < r)%nat -> lo <= hi -> (forall x, 0 <= mu x) ->
-  defuzzify (N:=NumRN) k r (liftf mu) (Some lo) (Some hi) = Ok (Some z) -> lo <= z <= hi.
+  defuzzify (N:=NumER) k r (liftf mu) (Fin lo) (Fin hi) = Ok (Fin z) -> lo <= z <= hi.
 Proof. exact defuzzify_in_range. Qed.
 Print Assumptions C09_in_range.
 
 (* ---- SOM <= MOM <= LOM *)
-Theorem C09_som_le_mom_le_lom : forall (r : nat) (mu : R -> R) (lo hi s m l : R), (0 < r)%nat ->
-  defuzzify (N:=NumRN) SmallestOfMaximum r (liftf mu) (Some lo) (Some hi) = Ok (Some s) ->
-  defuzzify (N:=NumRN) MeanOfMaximum r (liftf mu) (Some lo) (Some hi) = Ok (Some m) ->
-  defuzzify (N:=NumRN) LargestOfMaximum r (liftf mu) (Some lo) (Some hi) = Ok (Some l) ->
+Theorem C09_som_le_mom_le_lom : forall (r : nat) (mu : R -> R) (lo hi s m l : R),
+  (0 < r)%nat -> (forall x, 0 <= mu x) ->
+  defuzzify (N:=NumER) SmallestOfMaximum r (liftf mu) (Fin lo) (Fin hi) = Ok (Fin s) ->
+  defuzzify (N:=NumER) MeanOfMaximum r (liftf mu) (Fin lo) (Fin hi) = Ok (Fin m) ->
+  defuzzify (N:=NumER) LargestOfMaximum r (liftf mu) (Fin lo) (Fin hi) = Ok (Fin l) ->
   s <= m <= l.
 Proof. exact defuzzify_som_le_mom_le_lom. Qed.
 Print Assumptions C09_som_le_mom_le_lom.
@@ -137,14 +141,14 @@ Print Assumptions C09_som_le_mom_le_lom.
 (* ---- NaN exactly when the membership is zero at every sample point *)
 Theorem C09_nan_iff_all_zero : forall k (r : nat) (mu : R -> R) (lo hi : R),
   (0 < r)%nat -> (forall x, 0 <= mu x) ->
-  (defuzzify (N:=NumRN) k r (liftf mu) (Some lo) (Some hi) = Ok None <->
+  (defuzzify (N:=NumER) k r (liftf mu) (Fin lo) (Fin hi) = Ok NaN <->
    Forall (fun x => mu x = 0) (Rmidpoints lo hi r)).
 Proof. exact defuzzify_nan_iff. Qed.
 Print Assumptions C09_nan_iff_all_zero.
 
 Theorem C09_defined_when_some_positive : forall k (r : nat) (mu : R -> R) (lo hi : R),
   (0 < r)%nat -> (forall x, 0 <= mu x) -> Exists (fun x => 0 < mu x) (Rmidpoints lo hi r) ->
-  exists z, defuzzify (N:=NumRN) k r (liftf mu) (Some lo) (Some hi) = Ok (Some z).
+  exists z, defuzzify (N:=NumER) k r (liftf mu) (Fin lo) (Fin hi) = Ok (Fin z).
 Proof. exact defuzzify_defined. Qed.
 Print Assumptions C09_defined_when_some_positive.
 
@@ -158,10 +162,11 @@ Qed.
 Print Assumptions C09_all_zero_guards.
 
 (* ---- translating set and range by c translates the centroid by c (NaN stays NaN) *)
-Theorem C09_centroid_translate : forall (lo hi : R) (r : nat) (mu : R -> R) (c : R), (0 < r)%nat ->
-  defuzzify (N:=NumRN) Centroid r (liftf (fun x => mu (x - c))) (Some (lo + c)) (Some (hi + c)) =
-  match defuzzify (N:=NumRN) Centroid r (liftf mu) (Some lo) (Some hi) with
-  | Ok z => Ok (lift1 (fun z => z + c) z)
+Theorem C09_centroid_translate : forall (lo hi : R) (r : nat) (mu : R -> R) (c : R),
+  (0 < r)%nat -> (forall x, 0 <= mu x) ->
+  defuzzify (N:=NumER) Centroid r (liftf (fun x => mu (x - c))) (Fin (lo + c)) (Fin (hi + c)) =
+  match defuzzify (N:=NumER) Centroid r (liftf mu) (Fin lo) (Fin hi) with
+  | Ok z => Ok (add z (Fin c))
   | Err e => Err e
   end.
 Proof. exact centroid_translate. Qed.
@@ -174,9 +179,9 @@ Print Assumptions C09_centroid_translate_R.
 
 (* ---- a batch of sets gives the per-set results (the model's batch is row-wise by construction; that the
         implementation's batch equals its own per-row results is checked by the correspondence) *)
-Theorem C09_batch_rows : forall k (xs : list RN) (rows : list (list RN)) (i : nat), (i < length rows)%nat ->
+Theorem C09_batch_rows : forall k (xs : list ER) (rows : list (list ER)) (i : nat), (i < length rows)%nat ->
   nth i (defuzzify_batch k xs rows) (Err EValue) = defuzzify_samples k xs (nth i rows []).
-Proof. exact (@batch_rows RN NumRN). Qed.
+Proof. exact (@batch_rows ER NumER). Qed.
 Print Assumptions C09_batch_rows.
 
 (* ---- non-vacuity: the set with samples 0, 1, 1, 1/2 on [0, 4] at resolution 4 (plateau of two maxima) *)
@@ -189,30 +194,19 @@ Qed.
 Print Assumptions C09_example_hypotheses.
 
 Example C09_example_values :
-  defuzzify (N:=NumRN) SmallestOfMaximum 4 (liftf ex_mu) (Some 0) (Some 4) = Ok (Some (3 / 2)) /\
-  defuzzify (N:=NumRN) MeanOfMaximum 4 (liftf ex_mu) (Some 0) (Some 4) = Ok (Some 2) /\
-  defuzzify (N:=NumRN) LargestOfMaximum 4 (liftf ex_mu) (Some 0) (Some 4) = Ok (Some (5 / 2)) /\
-  defuzzify (N:=NumRN) Centroid 4 (liftf ex_mu) (Some 0) (Some 4) = Ok (Some (23 / 10)) /\
-  defuzzify (N:=NumRN) Bisector 4 (liftf ex_mu) (Some 0) (Some 4) = Ok (Some (3 / 2)).
+  defuzzify (N:=NumER) SmallestOfMaximum 4 (liftf ex_mu) (Fin 0) (Fin 4) = Ok (Fin (3 / 2)) /\
+  defuzzify (N:=NumER) MeanOfMaximum 4 (liftf ex_mu) (Fin 0) (Fin 4) = Ok (Fin 2) /\
+  defuzzify (N:=NumER) LargestOfMaximum 4 (liftf ex_mu) (Fin 0) (Fin 4) = Ok (Fin (5 / 2)) /\
+  defuzzify (N:=NumER) Centroid 4 (liftf ex_mu) (Fin 0) (Fin 4) = Ok (Fin (23 / 10)) /\
+  defuzzify (N:=NumER) Bisector 4 (liftf ex_mu) (Fin 0) (Fin 4) = Ok (Fin (3 / 2)).
 Proof.
   rewrite !ex_defuzzify, ex_som, ex_mom, ex_lom, ex_cen, ex_bis. repeat split; reflexivity.
 Qed.
 Print Assumptions C09_example_values.
 
 Example C09_example_all_zero : forall k,
-  defuzzify (N:=NumRN) k 4 (liftf (fun _ => 0)) (Some 0) (Some 4) = Ok None.
+  defuzzify (N:=NumER) k 4 (liftf (fun _ => 0)) (Fin 0) (Fin 4) = Ok NaN.
 Proof.
   intros k. apply C09_nan_iff_all_zero; [lia | intros; lra | apply Forall_forall; reflexivity].
 Qed.
 Print Assumptions C09_example_all_zero.
-
-(* the float reading evaluates: the same set over binary64, resolution 4 on [0, 4] *)
-From Coq Require Import PrimFloat.
-From VF Require Import NumF.
-Example C09_example_float :
-  let N := NumF true [] in
-  let mu := fun x : float => if PrimFloat.ltb x 1 then 0%float else if PrimFloat.ltb x 3 then 1%float else 0.5%float in
-  map (fun k => match @defuzzify float N k 4 mu 0%float 4%float with Ok z => z | Err _ => PrimFloat.nan end)
-      [SmallestOfMaximum; MeanOfMaximum; LargestOfMaximum; Bisector] = [1.5; 2; 2.5; 1.5]%float.
-Proof. vm_compute. reflexivity. Qed.
-Print Assumptions C09_example_float.
